@@ -564,7 +564,7 @@ theorem readBlock_cut (fuel : Nat) (st : RdSt) (hst : st.indef = true) (i : Item
     end-of-input (or reports the normal end when nothing was cut off). -/
 theorem truncated_blocks (fuel : Nat) (items : List Item) (vals : List Val) (hden : Denotes items vals)
     (hf : ∀ i ∈ items, steps i + cfuel i ≤ fuel) (N : Nat) (hN : items.length < N) (st : RdSt) (hst : st.indef = true)
-    (c n : Nat) (hn : n ≤ (Item.encList items ++ [breakByte]).length) :
+    (hout : st.outer = false) (c n : Nat) (hn : n ≤ (Item.encList items ++ [breakByte]).length) :
     readAll (readBlock fuel) N st c ((Item.encList items ++ [breakByte]).take n) =
       ((ends c items vals).filter (fun x => decide (x.2 ≤ c + n)),
        if n = (Item.encList items ++ [breakByte]).length then none else some .end_) := by
@@ -585,7 +585,7 @@ theorem truncated_blocks (fuel : Nat) (items : List Item) (vals : List Val) (hde
           rw [peek_break]
           simp only [if_true]
           rw [Prog.run_bind_ok _ _ _ _ _ (readBreak_accepts [])]
-          rfl
+          simp [endOfFile, hout]
         simp [readAll, hb]
   | cons i is ih =>
     cases vals with
@@ -627,7 +627,7 @@ theorem truncated_blocks (fuel : Nat) (items : List Item) (vals : List Val) (hde
         rw [hc]
         have hn' : n - i.enc.length ≤ (Item.encList is ++ [breakByte]).length := by
           simp only [List.length_append] at hn ⊢; omega
-        rw [ih vs hrest (fun j hj => hf j (by simp [hj])) N' (by simp at hN; omega) { st with read := st.read + 1 } hst (c + i.enc.length) (n - i.enc.length) hn']
+        rw [ih vs hrest (fun j hj => hf j (by simp [hj])) N' (by simp at hN; omega) { st with read := st.read + 1 } hst hout (c + i.enc.length) (n - i.enc.length) hn']
         have e1 : c + i.enc.length + (n - i.enc.length) = c + n := by omega
         have e2 : (n - i.enc.length = (Item.encList is ++ [breakByte]).length) = (n = (i.enc ++ (Item.encList is ++ [breakByte])).length) := by
           simp only [List.length_append, eq_iff_iff]; omega
@@ -643,11 +643,35 @@ theorem denotes_toItems (blocks : List Val) (hb : ConformsList block blocks) : D
     simp only [toItems, Denotes]
     exact ⟨(wfs_all (need v)).1 block v (Nat.le_refl _) hb.1, denote_toItem block v hb.1, ih hb.2⟩
 
+/-- **A file array of indefinite length is closed by its own break.**  When the block array ends (its break was read, or all
+    announced blocks were), a reader whose file array is of indefinite length (`m_indef_file`) demands that array's break: input
+    ending before it is end-of-input, not the regular end of the file – and with the break present the regular end is reported
+    and nothing more is demanded afterwards.  (The reader used to stop at the block array's end; found by cutting another
+    writer's layout `9f … ff` at every byte.) -/
+theorem outer_break_demanded (fuel : Nat) (st : RdSt) (hst : st.indef = true) (hout : st.outer = true) :
+    (readBlock fuel st).run [breakByte] = .error .end_ ∧
+    (readBlock fuel st).run [breakByte, breakByte] = .ok ((none, { st with indef := false, count := st.read, outer := false }), []) := by
+  constructor
+  · unfold readBlock
+    simp only [hst, if_true]
+    rw [peek_break]
+    simp only [if_true]
+    rw [Prog.run_bind_ok _ _ _ _ _ (readBreak_accepts [])]
+    simp [endOfFile, hout, readBreak, readCborType, Prog.run_bind]
+  · unfold readBlock
+    simp only [hst, if_true]
+    rw [peek_break]
+    simp only [if_true]
+    rw [Prog.run_bind_ok _ _ _ _ _ (readBreak_accepts [breakByte])]
+    simp only [endOfFile, hout, if_true]
+    rw [Prog.run_bind_ok _ _ _ _ _ (readBreak_accepts [])]
+    rfl
+
 /-- the exporter's own outputs: the block array `blocks… ff` written by the struct writers, cut anywhere -/
 theorem truncated_output (blocks : List Val) (hb : ConformsList block blocks) (fuel : Nat)
     (hf : ∀ i ∈ toItems block blocks, steps i + cfuel i ≤ fuel) (c n : Nat)
     (hn : n ≤ ((blocks.map (writeBytes block)).flatten ++ [breakByte]).length) :
-    readAll (readBlock fuel) (blocks.length + 1) ⟨true, 0, 0⟩ c (((blocks.map (writeBytes block)).flatten ++ [breakByte]).take n) =
+    readAll (readBlock fuel) (blocks.length + 1) ⟨true, 0, 0, false⟩ c (((blocks.map (writeBytes block)).flatten ++ [breakByte]).take n) =
       ((ends c (toItems block blocks) blocks).filter (fun x => decide (x.2 ≤ c + n)),
        if n = ((blocks.map (writeBytes block)).flatten ++ [breakByte]).length then none else some .end_) := by
   have e : ∀ bl : List Val, (bl.map (writeBytes block)).flatten = Item.encList (toItems block bl) := by
@@ -657,7 +681,7 @@ theorem truncated_output (blocks : List Val) (hb : ConformsList block blocks) (f
     | cons v vs ih => simp only [List.map_cons, List.flatten_cons, toItems, Item.encList, writeBytes, ih]
   rw [e blocks] at hn ⊢
   exact truncated_blocks fuel (toItems block blocks) blocks (denotes_toItems blocks hb) hf (blocks.length + 1)
-    (by rw [toItems_length]; omega) ⟨true, 0, 0⟩ rfl c n hn
+    (by rw [toItems_length]; omega) ⟨true, 0, 0, false⟩ rfl rfl c n hn
 
 /-! Non-vacuity / concrete instances: exactly one full window, then the end. -/
 example : Inv (DecSt.ofBytes (List.replicate 65535 1)) := inv_ofBytes _
